@@ -72,7 +72,9 @@ Begin(m) ==
               /\ batch' = [mode |-> m, start |-> s, pre |-> RootT(tree), slots |-> <<>>]
        ELSE /\ start' = "0" /\ okC' = TRUE /\ faults' = 0
             /\ batch' = [mode |-> m, start |-> "0", pre |-> RootT(tree), slots |-> <<>>]
-  /\ okA' = TRUE /\ mode' = m /\ ph' = "round" /\ slot' = 0
+  \* the start index is a uint32 of the parameter document and of the on-chain call: a batch whose start does not fit 32 bits is not a
+  \* batch the system can be asked for (matters only for trees deeper than 32 levels, where such positions exist)
+  /\ okA' = (m = "deletion" \/ Fits32(start')) /\ mode' = m /\ ph' = "round" /\ slot' = 0
   /\ UNCHANGED <<tree, past, ops, hist>>
 
 InsBits == IF Mutant = "widepath" THEN Depth + 1 ELSE Depth
